@@ -386,7 +386,13 @@ class SeqDom:
             ip.assign(target, x, st)
 
     def bind_exit(self, ip, st, target, k):
-        pass
+        # helpful (sound) facts at exit: all elements were consumed, so the processed prefix is the whole sequence
+        kk = ops.I(k)
+        st.assume(kk == z3.Length(self.term))
+        if self.elty in ('char', 'byte'):
+            st.assume(z3.SubString(self.term, 0, kk) == self.term)
+        else:
+            st.assume(z3.Extract(self.term, z3.IntVal(0), kk) == self.term)
 
 
 def for_domain(ip, st, it, stmt):
